@@ -225,7 +225,8 @@ pub fn run_payloads(payloads: &[Vec<u8>], ignores: &[bool], st: &mut Stats) -> R
                 }
                 return Err(Violation::new("refusal-not-an-error", format!("action {} must end the connection with an error, run_on returned {}", k, o.res.short())));
             }
-            decode_all(&o.sim.out[..o.sim.flushed], &conv, &s.last_seq, k, false).map_err(|e| Violation::new("reply-decode", e))?;
+            let d = decode_all(&o.sim.out[..o.sim.flushed], &conv, &s.last_seq, k, true).map_err(|e| Violation::new("reply-decode", e))?;
+            trailing_is_at_most_one_err(&d).map_err(|e| Violation::new("stray-output-after-refusal", e))?;
             Ok(None)
         }
         None => {
